@@ -16,33 +16,30 @@
    returns None.
 
    The steps:
-     print_scalar_total   print_scalar is Some for every scalar but a time tag
-     run_const_total, run_delta_total
-                          the second loop of rtosc_convert_to_range ends
-                          (fuel) and never meets a comparison outside the
-                          model when size does not exceed the number of slots
-     conv_total           convert_to_range is not CUnmod on scalars
-     print_yes_total      the range it writes is printed (print_range)
-     arr_loop_total       the loop over the elements of an array
-     print_array_total    the whole array
+     print_scalar_total   print_scalar is Some for every scalar (time tags included)
+     print_array_total    the whole array - since the merge with stage 7 of the
+                          pretty-printer development the instance more = [] of
+                          Pretty/TotalProofs.print_array_total (there: the second
+                          loop of rtosc_convert_to_range ends and stays inside the
+                          model, convert_to_range is not CUnmod, the range it writes
+                          is printed, the loop over the elements)
      array_message_prints_any, array_message_prints *)
 From Coq Require Import List ZArith Bool Lia.
 From RtoscV Require Import Pretty.Tok Pretty.FloatFmt Pretty.PrintModel Pretty.ScanModel Pretty.PrettyProofs
-  Pretty.RangeProofs Pretty.RunProofs Pretty.ListProofs Pretty.ArrayProofs.
+  Pretty.RangeProofs Pretty.RunProofs Pretty.ListProofs Pretty.ArrayProofs Pretty.TotalProofs.
 Import ListNotations.
 Local Open Scope Z_scope.
 
 (* ------------------------------------------------------------------------- *)
 (* single values                                                              *)
 Lemma print_scalar_total o v cols :
-  scalar v -> (forall t, v <> VTm t) -> exists t w c, print_scalar o v cols = Some (t, w, c).
+  scalar v -> exists t w c, print_scalar o v cols = Some (t, w, c).
 Proof.
-  destruct v; cbn [scalar]; intros Hs Ht; try contradiction; cbn [print_scalar];
+  destruct v; cbn [scalar]; intros Hs; try contradiction; cbn [print_scalar];
     try (eexists _, _, _; reflexivity).
   - destruct (print_string o false s cols) as [t c]. eexists _, _, _; reflexivity.
   - destruct (print_string o true s cols) as [t c]. eexists _, _, _; reflexivity.
   - destruct (print_blob o d cols) as [[t w] c]. eexists _, _, _; reflexivity.
-  - exfalso. eapply Ht. reflexivity.
 Qed.
 
 Lemma goodc_not_tm o zf zd v : goodc o zf zd v -> forall t, v <> VTm t.
@@ -51,216 +48,29 @@ Proof. intros [H|[H|[_ H]]] t E; subst v; cbn in H; contradiction. Qed.
 Lemma print_scalar_goodc o zf zd v cols :
   goodc o zf zd v -> exists t w c, print_scalar o v cols = Some (t, w, c).
 Proof.
-  intros Hg. apply print_scalar_total; [apply (goodc_facts o zf zd v Hg)|exact (goodc_not_tm o zf zd v Hg)].
-Qed.
-
-Lemma scalar_exact v : scalar v -> exact v.
-Proof. destruct v; cbn; tauto. Qed.
-
-Lemma eq_single_total a z : scalar a -> scalar z -> exists b, av_eq_single a z = Some b.
-Proof. destruct a, z; cbn; intros Ha Hz; try contradiction; eexists; reflexivity. Qed.
-
-Lemma fits_total k x a t d : exists b, range_step_fits (mk k x) (mk k a) (mk k t) (mk k d) = Some b.
-Proof. destruct k; eexists; reflexivity. Qed.
-
-(* ------------------------------------------------------------------------- *)
-(* the second loop of rtosc_convert_to_range                                  *)
-Section Run.
-Variable args : list av.
-Hypothesis Hsc : Forall scalar args.
-Variable size : Z.
-Hypothesis Hsize : size <= Z.of_nat (length args).
-
-Lemma nth_in_range j : (j < length args)%nat -> exists z, nth_error args j = Some z /\ scalar z.
-Proof.
-  intros Hj. destruct (nth_error args j) as [z|] eqn:E.
-  - exists z. split; [reflexivity|]. exact (nth_scalar args Hsc j z E).
-  - apply nth_error_None in E. lia.
-Qed.
-
-Lemma run_const_total a0 dl : nth_error args 0 = Some a0 ->
-  forall fuel s nc, (s < length args)%nat -> (length args <= fuel + s)%nat ->
-  exists r, run_loop fuel args size false dl (Z.of_nat s) nc = Some r.
-Proof.
-  intros H0. assert (Hs0 : scalar a0) by exact (nth_scalar args Hsc 0 a0 H0).
-  induction fuel as [|fuel IH]; intros s nc Hs Hf; [lia|].
-  cbn [run_loop]. rewrite skipz_nth, (incsize_skipn args Hsc).
-  destruct (size <=? Z.of_nat s + 1) eqn:Esz; [eexists; reflexivity|].
-  apply Z.leb_gt in Esz.
-  replace (Z.of_nat s + 1) with (Z.of_nat (S s)) by lia. rewrite skipz_nth, (skipn_hd args (S s)).
-  destruct (nth_in_range (S s) ltac:(lia)) as (z & Ez & Hzs). rewrite Ez.
-  destruct args as [|x rest] eqn:Ea; [discriminate|]. cbn in H0. inversion H0; subst x.
-  rewrite (elem_eq_exact a0 z rest _ (scalar_exact a0 Hs0) Hzs). rewrite <- Ea in *.
-  destruct (av_type a0 =? av_type z); [|eexists; reflexivity].
-  destruct (eq_single_total a0 z Hs0 Hzs) as [[|] Eq]; rewrite Eq; [|eexists; reflexivity].
-  apply IH; lia.
-Qed.
-
-Lemma run_delta_total k d x : nth_error args 0 = Some (mk k x) ->
-  forall fuel s nc a, nth_error args s = Some (mk k a) -> (length args <= fuel + s)%nat ->
-  exists r, run_loop fuel args size true (mk k d) (Z.of_nat s) nc = Some r.
-Proof.
-  intros H0.
-  induction fuel as [|fuel IH]; intros s nc a Ha Hf.
-  - assert (nth_error args s <> None) by (rewrite Ha; discriminate). apply nth_error_Some in H. lia.
-  - assert (Hs : (s < length args)%nat) by (apply nth_error_Some; rewrite Ha; discriminate).
-    cbn [run_loop]. rewrite skipz_nth, (incsize_skipn args Hsc).
-    rewrite (skipn_hd args s), Ha, add_mk.
-    destruct (size <=? Z.of_nat s + 1) eqn:Esz; [eexists; reflexivity|].
-    apply Z.leb_gt in Esz.
-    replace (Z.of_nat s + 1) with (Z.of_nat (S s)) by lia. rewrite skipz_nth, (skipn_hd args (S s)).
-    destruct (nth_in_range (S s) ltac:(lia)) as (z & Ez & Hzs). rewrite Ez.
-    rewrite (elem_eq_mk k _ z _ Hzs).
-    destruct (av_type (mk k (wr k (a + d))) =? av_type z) eqn:Et; [|eexists; reflexivity].
-    apply Z.eqb_eq in Et. symmetry in Et. destruct (type_mk_inj _ _ _ Hzs Et) as (b & ->).
-    rewrite eq_mk. destruct (wr k (a + d) =? b) eqn:Eb; [|eexists; reflexivity].
-    destruct args as [|h0 t0] eqn:Eargs; [discriminate|]. cbn in H0. inversion H0; subst h0.
-    rewrite <- Eargs in *.
-    destruct (fits_total k x a (wr k (a + d)) d) as [[|] Ef]; rewrite Ef; [|eexists; reflexivity].
-    apply (IH (S s) (nc + 1) b Ez). lia.
-Qed.
-End Run.
-
-
-(* ------------------------------------------------------------------------- *)
-(* rtosc_convert_to_range stays inside the model                              *)
-Lemma conv_total o args size :
-  Forall scalar args -> size <= Z.of_nat (length args) -> convert_to_range o args size <> CUnmod.
-Proof.
-  intros Hsc Hsize. unfold convert_to_range.
-  destruct ((size <? 5) || (hd_type args =? 45) || negb (compress o)); [discriminate|].
-  destruct (count_common (length args) (hd_type args) args 0 size 0 <? 5) eqn:Ecc; [discriminate|].
-  destruct args as [|a0 [|a1 rest]] eqn:Ea.
-  - cbn in Ecc. discriminate.
-  - cbn [length count_common hd_type] in Ecc. destruct (size <=? 0); [discriminate|].
-    destruct (av_type a0 =? av_type a0); discriminate.
-  - assert (Hs0 : scalar a0) by now inversion Hsc.
-    assert (Hs1 : scalar a1) by (inversion Hsc as [|? ? _ H]; now inversion H).
-    assert (Hty : av_type a1 = av_type a0).
-    { destruct (Z.eq_dec (av_type a1) (av_type a0)) as [E|E]; [exact E|exfalso].
-      pose proof (count_common_second (length (a0 :: a1 :: rest)) (av_type a0) a0 a1 rest size Hs0 E).
-      cbn [hd_type] in Ecc. lia. }
-    rewrite (incsize_scalar a0 _ Hs0). change (skipz 1 (a0 :: a1 :: rest)) with (a1 :: rest).
-    rewrite (elem_eq_exact a0 a1 _ _ (scalar_exact a0 Hs0) Hs1). rewrite Hty, Z.eqb_refl.
-    destruct (eq_single_total a0 a1 Hs0 Hs1) as [e Ee]. rewrite Ee.
-    rewrite <- Ea in *.
-    assert (H0 : nth_error args 0 = Some a0) by now rewrite Ea.
-    assert (H1 : nth_error args 1 = Some a1) by now rewrite Ea.
-    assert (Hl : (2 <= length args)%nat) by (rewrite Ea; cbn [length]; lia).
-    destruct e; cbn [negb andb].
-    + destruct (run_const_total args Hsc size Hsize a0 VN H0 (length args) 1%nat 1 ltac:(lia) ltac:(lia))
-        as [[skipped nc] Er].
-      change (Z.of_nat 1) with 1 in Er. rewrite Er. destruct (nc <? 5); discriminate.
-    + destruct (range_convertible (hd_type args)) eqn:Erc; [|discriminate]. cbn [negb].
-      rewrite Ea in Erc. cbn [hd_type] in Erc.
-      destruct (exact_kind a0 (scalar_exact a0 Hs0) Erc) as [(k & x & ->)|[->| ->]];
-        [|destruct a1; cbn in Hs1, Ee, Hty; try contradiction; discriminate
-         |destruct a1; cbn in Hs1, Ee, Hty; try contradiction; discriminate].
-      destruct (type_mk_inj k x a1 Hs1 Hty) as (y & ->).
-      rewrite sub_mk.
-      destruct (fits_total k x x y (wr k (y - x))) as [[|] Ef]; rewrite Ef; [|discriminate].
-      destruct (run_delta_total args Hsc size Hsize k (wr k (y - x)) x H0 (length args) 1%nat 1 y H1 ltac:(lia))
-        as [[skipped nc] Er].
-      change (Z.of_nat 1) with 1 in Er. rewrite Er. destruct (nc <? 5); discriminate.
+  intros Hg. apply print_scalar_total. apply (goodc_facts o zf zd v Hg).
 Qed.
 
 (* ------------------------------------------------------------------------- *)
-(* the range written by the conversion is printed                             *)
+(* the whole array: the instance "nothing follows the array" of the general
+   lemma of the pretty-printer development (Pretty/TotalProofs.v:
+   conv_total_scalar - convert_to_range is not CUnmod -, print_conv_total,
+   print_array_loop_total, print_array_total, stated for every nesting fuel
+   and for any good slots behind the array)                                   *)
 Section Loop.
 Variable o : popts.
 Variables zf zd : Z.
 Hypothesis Hz : zchoice zf zd.
-
-Lemma goodc_scalars l : Forall (goodc o zf zd) l -> Forall scalar l.
-Proof. intros H. eapply Forall_impl; [|exact H]. intros a Ha. apply (goodc_facts o zf zd a Ha). Qed.
-Lemma goodc_inrvs l : Forall (goodc o zf zd) l -> Forall (inrv zf zd) l.
-Proof. intros H. eapply Forall_impl; [|exact H]. intros a Ha. apply (goodc_facts o zf zd a Ha). Qed.
-
-Lemma conv_yes_on args size c kk : convert_to_range o args size = CYes c kk -> compress o = true.
-Proof.
-  unfold convert_to_range. destruct (compress o); [reflexivity|].
-  cbn [negb]. rewrite orb_true_r. discriminate.
-Qed.
-
-Lemma print_yes_total a0 rest size c kk cols prev :
-  Forall (goodc o zf zd) (a0 :: rest) -> Z.of_nat (length (a0 :: rest)) < 2 ^ 31 ->
-  (forall p, prev = Some p -> scalar p) ->
-  convert_to_range o (a0 :: rest) size = CYes c kk ->
-  exists n t w c1, kk = Z.of_nat n /\ (1 <= n <= length (a0 :: rest))%nat /\ hd_type c = 45 /\
-    print_arg_val o c cols prev = Some (t, w, c1, false).
-Proof.
-  intros Hg Hlen Hprev Hcv. pose proof (conv_yes_on _ _ _ _ Hcv) as Hon.
-  pose proof (Forall_inv Hg) as Hg0. destruct (goodc_facts o zf zd a0 Hg0) as (Hs0 & _ & Hex0).
-  destruct (range_expand_shape zf zd (proj1 Hz) (proj2 Hz) o (a0 :: rest) size c kk (goodc_scalars _ Hg)
-              (goodc_inrvs _ Hg) Hex0 Hlen Hcv) as (n & -> & [Hn5 Hnl] & _ & Hshape).
-  destruct Hshape as [[[y Ec] _]|(k & d & x & y & Ec & Hdr & Hhd & Hd0 & Hexj)]; subst c; cbn [hd] in *.
-  - destruct (print_scalar_goodc o zf zd a0 (cols + len (print_d (Z.of_nat n) ++ [120])) Hg0) as (t & w & c1 & Eps).
-    eexists n, _, _, _. split; [reflexivity|]. split; [lia|]. split; [reflexivity|].
-    exact (print_range_const o (Z.of_nat n) a0 y cols prev t w c1 Hon ltac:(lia) Hs0 Eps).
-  - assert (Hsec : wr k (x + 1 * d) = x + d).
-    { replace (x + 1 * d) with (x + Z.of_nat 1 * d) by lia. rewrite wr_id by (apply (Hexj 1%nat); lia). lia. }
-    destruct (print_range_delta o k d x (Z.of_nat n) y cols prev _ Hon ltac:(lia) Hd0 Hsec eq_refl Hprev)
-      as (sp & t & c1 & _ & Hpr & _).
-    eexists n, _, _, _. split; [reflexivity|]. split; [lia|]. split; [reflexivity|]. exact Hpr.
-Qed.
-
-(* ------------------------------------------------------------------------- *)
-(* the loop over the elements of an array                                     *)
 Variable parr : parr_t.
-
-Lemma arr_loop_total : forall fuel elems prev i n acc first bb wrt cols awtl,
-  Forall (goodc o zf zd) elems -> Z.of_nat (length elems) < 2 ^ 31 -> n + 1 - i = Z.of_nat (length elems) ->
-  (forall p, prev = Some p -> scalar p) -> (length elems < fuel)%nat ->
-  exists r, print_array_loop print_arg_val parr fuel o elems prev i n acc first bb wrt cols awtl = Some r.
-Proof.
-  induction fuel as [|fuel IH]; intros elems prev i n acc first bb wrt cols awtl Hg Hlen Hn Hprev Hf; [lia|].
-  cbn [print_array_loop].
-  destruct elems as [|a0 rest].
-  - cbn [length] in Hn. replace (n <? i) with true by lia. eexists; reflexivity.
-  - cbn [length] in Hn, Hf. replace (n <? i) with false by lia.
-    pose proof (Forall_inv Hg) as Hg0. destruct (goodc_facts o zf zd a0 Hg0) as (Hs0 & _ & _).
-    assert (Hnth : forall j p, nth_error (a0 :: rest) j = Some p -> scalar p).
-    { intros j p E. apply (goodc_facts o zf zd p). eapply Forall_forall; [exact Hg|]. eapply nth_error_In; exact E. }
-    destruct (convert_to_range o (a0 :: rest) (n + 1 - i)) as [|c kk|] eqn:Ecv.
-    + assert (Hty : hd_type (a0 :: rest) =? 97 = false)
-        by (destruct a0; cbn in Hs0; try contradiction; reflexivity).
-      rewrite Hty. unfold print_arg_val at 1. rewrite (pav_scalar o a0 rest cols prev 5 Hs0).
-      destruct (print_scalar_goodc o zf zd a0 cols Hg0) as (t & w & c1 & Eps). rewrite Eps.
-      cbn [andb]. cbv beta iota.
-      destruct (lb_check (linelength o) c1 w awtl) as [[brk_ cols2] awtl2].
-      rewrite (next_arg_offset_scalar a0 rest Hs0). change (skipz 1 (a0 :: rest)) with rest.
-      apply IH.
-      * exact (Forall_inv_tail Hg).
-      * cbn [length] in Hlen. lia.
-      * lia.
-      * intros p Ep. exact (Hnth _ _ Ep).
-      * lia.
-    + destruct (print_yes_total a0 rest _ c kk cols prev Hg Hlen Hprev Ecv) as (m & t & w & c1 & -> & Hm & Hhd & Hpr).
-      rewrite Hhd. change (45 =? 97) with false. cbv beta iota. rewrite Hpr.
-      cbn [andb]. cbv beta iota.
-      destruct (lb_check (linelength o) c1 w awtl) as [[brk_ cols2] awtl2].
-      rewrite skipz_nth.
-      assert (Hl2 : length (skipn m (a0 :: rest)) = (length (a0 :: rest) - m)%nat) by apply skipn_length.
-      apply IH.
-      * rewrite <- (firstn_skipn m (a0 :: rest)) in Hg. now apply Forall_app in Hg as [_ Hg].
-      * rewrite Hl2. cbn [length] in *. lia.
-      * rewrite Hl2. cbn [length] in *. lia.
-      * intros p Ep. exact (Hnth _ _ Ep).
-      * rewrite Hl2. cbn [length] in *. lia.
-    + exfalso. apply (conv_total o (a0 :: rest) (n + 1 - i)); [exact (goodc_scalars _ Hg)| |exact Ecv].
-      cbn [length]. lia.
-Qed.
 
 Lemma print_array_total ty elems cols blank :
   Forall (goodc o zf zd) elems -> Z.of_nat (length elems) < 2 ^ 31 ->
   exists r, print_array print_arg_val parr o (VArr ty (Z.of_nat (length elems)) :: elems) cols blank = Some r.
 Proof.
-  intros Hg Hlen. unfold print_array.
-  destruct (Z.of_nat (length elems) =? 0); [eexists; reflexivity|].
-  destruct (arr_loop_total (S (length elems)) elems None 1 (Z.of_nat (length elems)) [91] true false 1 (cols + 1)
-              (if (cols =? 0) || negb blank then 0 else 1) Hg Hlen ltac:(lia) ltac:(discriminate) ltac:(lia))
-    as [[[[t w] c] bb] E].
-  rewrite E. eexists; reflexivity.
+  intros Hg Hlen.
+  pose proof (TotalProofs.print_array_total (fun _ => 0) (fun _ => 0) o zf zd Hz parr 4 ty elems [] cols blank Hg
+                (Forall_nil _)) as H.
+  rewrite app_nil_r in H. apply H. exact Hlen.
 Qed.
 End Loop.
 
